@@ -18,7 +18,8 @@ explicit default port, back to the origin, fragment, unsupported scheme, absent)
 before a hop, terminal hop 200/404/connection closed/malformed; original request method
 GET/HEAD/POST/PUT/DELETE, body or body_producer, headers built from a dict or by repeated
 ``HTTPHeaders.add`` (multi-valued Cookie, Authorization, odd name case), auth_username/password, URL
-credentials, max_redirects 0..5, follow_redirects on/off.  The fake server answers each connection
+credentials, max_redirects 0..5, follow_redirects on/off - each given either per request or as client-level
+``defaults=dict(...)`` (constructor / configure kwargs) with the request leaving it unset.  The fake server answers each connection
 according to the request target it received; every request is parsed with a strict request reader.
 Oracle: requests received == 1 + min(redirect hops, max_redirects) exactly (never more), each sent to
 the host/port/scheme and target RFC 3986 resolution (urllib urljoin) gives; 303 (non-HEAD) and 301/302 on
@@ -46,6 +47,12 @@ Sensitivity (quick tier, seed 1, scratch copies of /repo/tornado, one mutant at 
   M5  finish(): 302 on POST no longer rewritten to GET                       -> C09.method
   M6  _release_fetch: no _process_queue() after freeing a slot               -> C09.waiting_while_slot_free
   M10 finish(): auth_username/password kept on cross-origin redirect         -> C09.cross_origin_authorization
+  M11 finish(): follow-up budget taken from the raw HTTPRequest (`self.request.request.max_redirects`, else 5) instead of
+      the proxied request that honours client `defaults`                         -> caught at seeds 1,2,3
+      C09.more_requests_than_max_redirects (minimal: defaults max_redirects=1, request leaves it unset, chain of 2).
+      Found by independent mutation testing: earlier versions always passed max_redirects/follow_redirects per
+      request, so the defaults channel was added to the strategy and to the chain-length x max_redirects grid
+      (chains 0..6 x limits 0..5 x both channels; labels *_via_client_defaults).
   (planned mutant "_on_timeout not removing from queue" is equivalent: _process_queue skips keys missing from
   `waiting`, so it was replaced by M6/M10.)  Pre-fix snapshot 59274db: F01 replay -> C09.cross_origin_cookie.
 """
@@ -72,7 +79,7 @@ RULE = (
     "real client and a FIFO model, observed at quiescence after every op; non-trivial = >=2 fetches were queued behind "
     "max_clients and a timeout, connect failure or peer close happened. redirects: Hypothesis chains (<=6 hops x 16 "
     "Location kinds x 5 statuses, 5 methods, body/body_producer, header construction mode, 3 credential sources, "
-    "max_redirects 0-5) plus a deterministic grid of (status x method x body mode) and (Location kind x credential "
+    "max_redirects 0-5 and follow_redirects given per request or via client-level defaults) plus a deterministic grid of (status x method x body mode) and (Location kind x credential "
     "source); non-trivial = a cross-origin hop is followed while credentials are present. distinct = SHA-1 of the case"
 )
 ASSUMPTIONS = [
